@@ -34,6 +34,14 @@ class FaultExc(Exception):
     pass
 
 
+class FalsyFaultExc(FaultExc):
+    """an exception object that is falsy (an error that doubles as the - here empty - collection of its problems): which exception
+    it is must not depend on its truth value"""
+
+    def __len__(self):
+        return 0
+
+
 def _wrap(name):
     def hook(self, *a, **kw):
         n = self._hook_counts[name] = self._hook_counts.get(name, 0) + 1
@@ -66,7 +74,7 @@ class Proc(plumpy.Process):
     def __init__(self, *a, fault=None, **kw):
         self._hook_counts = {}
         self._fault = fault
-        self._fault_exc = FaultExc('injected')
+        self._fault_exc = (FalsyFaultExc if (fault is not None and len(fault) > 2 and isinstance(fault[2], int) and fault[2] % 2 == 0) else FaultExc)('injected')
         self._trace = []
         super().__init__(*a, **kw)
 
@@ -233,6 +241,9 @@ def run_case(case):
         if p.has_terminated() and not loop.n_ready():
             break
     f = p.future()
+    # read BEFORE anything here retrieves the exception: would asyncio report the failure to the loop's exception handler as
+    # "exception was never retrieved" when a fire-and-forget owner drops the process?
+    res['unretrieved'] = bool(getattr(f, '_log_traceback', False)) if f.done() and not f.cancelled() else False
     res.update(
         state=p.state.value, entered=entered, trace=list(p._trace),
         exception_is_fault=p.exception() is p._fault_exc if p.state == ps.ProcessState.EXCEPTED else None,
@@ -313,10 +324,14 @@ def monitors(case, res, base):
         return out
     if not res['fired']:
         return out
-    escaped = [e for e in res['loop_errs'] if e in ('FaultExc',)]
+    escaped = [e for e in res['loop_errs'] if e in ('FaultExc', 'FalsyFaultExc')]
     if escaped or res['task'].startswith('crashed') or res['task'] == 'cancelled':
         F('c03-escaped-into-loop', 'the exception never escapes into the event loop and stepping returns normally',
           dict(loop=res['loop_errs'], task=res['task']))
+    if res.get('unretrieved') and res['state'] == 'excepted':
+        F('c03-failure-left-for-the-loop', 'the exception never escapes into the event loop (the process has taken note of its own '
+          'failure: it is not reported to the loop\'s exception handler as never retrieved when the process is dropped)',
+          dict(state=res['state'], future=res['future']))
     if res['transitioning']:
         F('c03-stuck-transitioning', 'the process is never left stuck between states')
     kind = f[0]
